@@ -4,6 +4,7 @@ See /verif/DESIGN.md §2.4 for the protocol.  Output is canonical text, one line
 -/
 import Decaf.Model.Curve
 import Decaf.Model.Glue
+import Decaf.Model.R1cs
 
 namespace Model.Exec
 open Model
@@ -327,12 +328,146 @@ def execSpec (op : String) (args : List String) : String :=
         | some xy => (match encodeSpecField xy with | some s => toHex (toLeBytes s 32) | none => "spec-undefined")
         | none => "none")
       | none => "bad-op"
+  | "gell", [h] => match parseFe fqP h with
+      | some r0 => (match elligatorSpec ZETA r0 with
+        | some xy => (match encodeSpecField xy with | some s => "sat=1 out=" ++ toHex (toLeBytes s 32) | none => "spec-undefined")
+        | none => "none")
+      | none => "bad-op"
   | "ell3", [h] => match parseFe fqP h with
       | some r0 => (match elligatorSpec ZETA r0 with
         | some xy => (match encodeSpecField xy with | some s => toHex (toLeBytes s 32) ++ " 1 1" | none => "spec-undefined")
         | none => "none")
       | none => "bad-op"
   | _, _ => "bad-op"
+
+/-! ### gadgets: `g.<op> key=value …` (arkworks build only) -/
+
+def kvGet (args : List String) (k : String) : Option String :=
+  args.findSome? (fun a => match a.splitOn "=" with
+    | key :: rest => if key == k then some (String.intercalate "=" rest) else none
+    | _ => none)
+
+def kvAll (args : List String) (k : String) : List String :=
+  args.filterMap (fun a => match a.splitOn "=" with
+    | key :: rest => if key == k then some (String.intercalate "=" rest) else none
+    | _ => none)
+
+def parseHint (s : String) : Option R1cs.Hint :=
+  if s == "honest" then some none
+  else match s.splitOn "," with
+    | [f, y] => (parseFe fqP y).map (fun yv => some (f == "1", yv))
+    | _ => none
+
+/-- the element argument `k=<enc>` / `kxy=<x>,<y>` / `kp=<program with / for ; and ~ for =>` as affine coordinates -/
+def elemArg (args : List String) (k : String) : Option (Nat × Nat) :=
+  match kvGet args k with
+  | some h => (match parseHex h with
+      | some bs => (match decodeSlice sqrtRatioArk bs with | .ok e => some e.affine | _ => none)
+      | none => none)
+  | none =>
+    match kvGet args (k ++ "xy") with
+    | some xy => (match xy.splitOn "," with
+        | [x, y] => (match parseFe fqP x, parseFe fqP y with | some a, some b => some (a, b) | _, _ => none)
+        | _ => none)
+    | none =>
+      match kvGet args (k ++ "p") with
+      | some pr =>
+        let prog := (pr.replace "/" ";").replace "~" "="
+        -- run the program, read register E
+        let stmts := prog.splitOn ";"
+        let regs := stmts.foldl (fun (acc : Option (List (String × Ext))) st =>
+          match acc with
+          | none => none
+          | some regs =>
+            if st.isEmpty then some regs else
+            match st.splitOn "=" with
+            | [dst, rhs] =>
+              let (op, as) := match rhs.splitOn ":" with
+                | [o] => (o, ([] : List String))
+                | [o, a] => (o, if a.isEmpty then [] else a.splitOn ",")
+                | _ => ("bad", [])
+              (match execAssign arkBuild regs dst op as with | .ok r => some r | .error _ => none)
+            | _ => some regs) (some [])
+        (regs.bind (fun r => getReg r "E")).map (·.affine)
+      | none => none
+
+def pointOut (xy : Nat × Nat) : String :=
+  if C17.onCurve xy.1 xy.2 then
+    match (Ext.ofAffine xy).encode sqrtRatioArk with | some bs => toHex bs | none => "panic"
+  else "offcurve"
+
+def gOut (sat : Bool) (out : String) : String := s!"sat={boolStr sat} out={out}"
+
+def execGadget (op : String) (args : List String) : String :=
+  let hints := (kvAll args "hint").filterMap parseHint
+  let h0 : R1cs.Hint := hints.headD none
+  let fq (k : String) := (kvGet args k).bind (parseFe fqP)
+  match op with
+  | "isqrt" => match fq "x" with
+      | some x => let (sat, f, y) := R1cs.isqrt x h0; gOut sat s!"{boolStr f},{feHex fqP (fabs y)}"
+      | none => "bad-op"
+  | "isneg" => match fq "x" with | some x => gOut true (boolStr (isNeg x)) | none => "bad-op"
+  | "isnonneg" => match fq "x" with | some x => gOut true (boolStr (!isNeg x)) | none => "bad-op"
+  | "abs" => match fq "x" with | some x => gOut true (feHex fqP (fabs x)) | none => "bad-op"
+  | "compress" => match elemArg args "e" with
+      | some (x, y) => let (sat, s) := R1cs.compress x y h0; gOut (sat && C17.onCurve x y) (feHex fqP s)
+      | none => "bad-elem"
+  | "decompress" => match fq "s" with
+      | some s => let (sat, x, y) := R1cs.decompress s h0; gOut sat (pointOut (x, y))
+      | none => "bad-op"
+  | "elligator" => match fq "r0" with
+      | some r0 => let (sat, x, y) := R1cs.elligator r0 h0; gOut sat (pointOut (x, y))
+      | none => "bad-op"
+  | "alloc_witness" | "alloc_witness_aff" => match elemArg args "e" with
+      | some (x, y) => let (sat, dx, dy) := R1cs.allocWitness x y h0; gOut sat (pointOut (dx, dy))
+      | none => "bad-elem"
+  | "alloc_constant" => match elemArg args "e" with
+      | some xy => gOut true (pointOut xy)
+      | none => "bad-elem"
+  | "add" | "add_ref" | "add_asg" | "add_const" | "add_const_asg" => match elemArg args "a", elemArg args "b" with
+      | some a, some b => gOut (C17.onCurve a.1 a.2 && C17.onCurve b.1 b.2) (pointOut (Ext.addAffine a b))
+      | _, _ => "bad-elem"
+  | "sub" | "sub_ref" | "sub_asg" | "sub_const" | "sub_const_asg" => match elemArg args "a", elemArg args "b" with
+      | some a, some b => gOut (C17.onCurve a.1 a.2 && C17.onCurve b.1 b.2) (pointOut (Ext.addAffine a (fneg q b.1, b.2)))
+      | _, _ => "bad-elem"
+  | "neg" => match elemArg args "a" with
+      | some a => gOut (C17.onCurve a.1 a.2) (pointOut (fneg q a.1, a.2)) | none => "bad-elem"
+  | "dbl" => match elemArg args "a" with
+      | some a => gOut (C17.onCurve a.1 a.2) (pointOut (Ext.addAffine a a)) | none => "bad-elem"
+  | "iseq" => match elemArg args "a", elemArg args "b" with
+      | some a, some b => gOut (C17.onCurve a.1 a.2 && C17.onCurve b.1 b.2) (boolStr (R1cs.isEq a b)) | _, _ => "bad-elem"
+  | "enforce_eq" => match elemArg args "a", elemArg args "b" with
+      | some a, some b => gOut (C17.onCurve a.1 a.2 && C17.onCurve b.1 b.2 && R1cs.isEq a b) "-" | _, _ => "bad-elem"
+  | "enforce_neq" => match elemArg args "a", elemArg args "b" with
+      | some a, some b => gOut (C17.onCurve a.1 a.2 && C17.onCurve b.1 b.2 && !R1cs.isEq a b) "-" | _, _ => "bad-elem"
+  | "select" => match elemArg args "a", elemArg args "b" with
+      | some a, some b => gOut (C17.onCurve a.1 a.2 && C17.onCurve b.1 b.2) (pointOut (if kvGet args "c" == some "1" then a else b))
+      | _, _ => "bad-elem"
+  | "scalarmul" => match elemArg args "a", kvGet args "bits" with
+      | some a, some bits =>
+        gOut (C17.onCurve a.1 a.2) (pointOut (R1cs.scalarMulLe (bits.toList.map (· == '1')) (0, 1) a))
+      | _, _ => "bad-elem"
+  | "lazy" =>
+    let ops := ((kvGet args "ops").getD "").splitOn "," |>.filter (· != "")
+    let st0 : Option R1cs.Lazy :=
+      if kvGet args "from" == some "enc" then (fq "s").map R1cs.Lazy.enc
+      else (elemArg args "e").map (fun xy => R1cs.Lazy.elem xy.1 xy.2)
+    match st0 with
+    | none => "bad-op"
+    | some st0 =>
+      let init : R1cs.Lazy × List R1cs.Hint × Bool × List String :=
+        (st0, hints, (match st0 with | .elem x y => C17.onCurve x y | _ => true), [])
+      let (_, _, sat, outs) := ops.foldl (fun (acc : R1cs.Lazy × List R1cs.Hint × Bool × List String) o =>
+        let (st, hs, sat, outs) := acc
+        let f := if o == "enc" || o == "clone_enc" then R1cs.Force.enc else R1cs.Force.elem
+        let (st', em, ok) := st.step f (hs.headD none)
+        let hs' := if em == .nothing then hs else hs.drop 1
+        let v := match f with
+          | .enc => (st'.encVal.map (feHex fqP)).getD "?"
+          | .elem => (st'.elemVal.map pointOut).getD "?"
+        (st', hs', sat && ok, outs ++ [s!"{o}:{v}+{if em == .nothing then "0" else "N"}"])) init
+      gOut sat (String.intercalate "|" outs)
+  | _ => "bad-op"
 
 def execLine (B : Build) (line : String) : String :=
   match line.trimAscii.toString.splitOn " " with
@@ -341,6 +476,7 @@ def execLine (B : Build) (line : String) : String :=
     match op.splitOn "." with
     | "f" :: fld :: o :: _ => execField B fld o args
     | "spec" :: o :: _ => execSpec o args
+    | "g" :: o :: _ => execGadget o args
     | _ => "bad-op"
   | [] => "bad-op"
 
